@@ -140,23 +140,23 @@ Proof.
   rewrite Hd, app_nil_r, firstn_short by lia. reflexivity.
 Qed.
 
-Lemma body_ops_shape b : exists ops t,
-  body_ops b = ops ++ [t] /\ forallb body_op ops = true /\ term_op t = true /\ concat (map op_data (ops ++ [t])) = body_bytes b /\ concat (map enc1 (map op_data (ops ++ [t]))) = concat (map enc1 (chunk_pieces b)) /\
-  (should_write b = true -> op_data t = []) /\ (should_write b = false -> ops = []).
+Lemma body_ops_shape sw b : (sw = false -> should_write_body b = false) -> exists ops t,
+  body_ops sw b = ops ++ [t] /\ forallb body_op ops = true /\ term_op t = true /\
+  concat (map op_data (ops ++ [t])) = body_bytes b /\
+  concat (map enc1 (map op_data (ops ++ [t]))) = concat (map enc1 (chunk_pieces b)) /\
+  (sw = true -> op_data t = []) /\ (sw = false -> ops = []).
 Proof.
-  destruct b as [|d|ps].
-  - exists [], WSetEof. repeat split; try reflexivity; discriminate.
-  - destruct d as [|a d'].
-    + exists [], WSetEof. repeat split; try reflexivity; discriminate.
-    + exists [WWrite (a :: d')], (WEof []). cbn [body_ops app map op_data concat body_bytes chunk_pieces enc1].
-      repeat split; try reflexivity; try discriminate. rewrite !app_nil_r. reflexivity.
-  - exists (map WWrite ps), (WEof []). cbn [body_ops body_bytes chunk_pieces].
-    split; [reflexivity|]. split; [apply body_op_writes|]. split; [reflexivity|].
-    rewrite !map_app, op_data_writes. cbn [map op_data].
-    assert (A1 : concat (ps ++ [[]]) = concat ps) by (rewrite concat_app; cbn [concat]; rewrite !app_nil_r; reflexivity).
-    assert (A2 : concat (map enc1 ps ++ [enc1 []]) = concat (map enc1 ps))
-      by (rewrite concat_app; cbn [enc1 concat]; rewrite !app_nil_r; reflexivity).
-    split; [exact A1|]. split; [exact A2|]. split; [intros _; reflexivity|discriminate].
+  intro Hsw. destruct sw.
+  - exists (body_writes b), (WEof []). unfold body_ops.
+    split; [reflexivity|]. split; [destruct b; [reflexivity|reflexivity|apply body_op_writes]|]. split; [reflexivity|].
+    assert (A : map op_data (body_writes b) = match b with BNone => [[]] | BBytes d => [d] | BPieces ps => ps end)
+      by (destruct b; [reflexivity|reflexivity|apply op_data_writes]).
+    rewrite !map_app, A. cbn [map op_data].
+    split; [|split; [|split; [intros _; reflexivity|discriminate]]].
+    + rewrite concat_app. cbn [concat]. rewrite !app_nil_r. destruct b; cbn [body_bytes concat]; rewrite ?app_nil_r; reflexivity.
+    + rewrite concat_app. cbn [enc1 concat]. rewrite !app_nil_r. destruct b; cbn [chunk_pieces map enc1 concat]; rewrite ?app_nil_r; reflexivity.
+  - specialize (Hsw eq_refl). exists [], WSetEof. unfold body_ops.
+    destruct b as [|[|a d]|ps]; try discriminate; repeat split; try reflexivity; discriminate.
 Qed.
 
 Lemma concat_snoc_nil (ds : list bytes) t : t = [] -> concat (ds ++ [t]) = concat ds.
@@ -168,8 +168,10 @@ Lemma wire_shape r head :
 Proof.
   intros HH Hlen. unfold client_ops, client_ops_len, body_wire, client_counts_declared_length. rewrite andb_true_r.
   unfold length_ok in Hlen.
-  destruct (body_ops_shape (c_body r)) as (ops & t & -> & Hb & Ht & E1 & E2 & Hw1 & Hw0).
-  destruct (should_write (c_body r)) eqn:Esw.
+  assert (Hsw : should_write r = false -> should_write_body (c_body r) = false).
+  { unfold should_write. intro H. apply orb_false_iff in H as [H _]. exact H. }
+  destruct (body_ops_shape (should_write r) (c_body r) Hsw) as (ops & t & -> & Hb & Ht & E1 & E2 & Hw1 & Hw0).
+  destruct (should_write r) eqn:Esw.
   - specialize (Hw1 eq_refl).
     destruct (header_content_length r) as [[n|]|]; [| |discriminate].
     + apply andb_true_iff in Hlen as [Hc Hn]. apply negb_true_iff in Hc. rewrite Hc. cbn [app].
@@ -574,6 +576,6 @@ Proof.
   intro Hv. destruct (valid_unpack lim r Hv). unfold length_ok in vf_len0. unfold body_shortfall.
   destruct (header_content_length r) as [[n|]|]; try reflexivity.
   apply andb_true_iff in vf_len0 as [_ Hn]. apply N.eqb_eq in Hn.
-  destruct (client_counts_declared_length && should_write (c_body r)); [|reflexivity].
+  destruct (client_counts_declared_length && should_write r); [|reflexivity].
   change (body_bytes_of (c_body r)) with (body_bytes (c_body r)). lia.
 Qed.
